@@ -581,7 +581,7 @@ func c03GeneratedPrograms(thorough bool, emit func(spellCase)) {
 	bases := g.all(n)
 	bases = append(bases, g.constructPairs()...)
 	tpl := "HH24:MI"
-	trail := []*Expr{sKey("k"), sAnyKey(), sAnyArray(), sAny(0, -1), sAny(1, 2), sAny(3, 3), sIndex(sub1(eInt(0))), sIndex(subR(eInt(0), eLast())), sIndex(sub1(eInt(1)), sub1(eInt(2))),
+	trail := []*Expr{sKey("k"), sAnyKey(), sAnyArray(), sAny(0, -1), sAny(1, 2), sAny(3, 3), sAny(-1, -1), sAny(1, -1), sAny(0, 0), sIndex(sub1(eInt(0))), sIndex(subR(eInt(0), eLast())), sIndex(sub1(eInt(1)), sub1(eInt(2))),
 		sDecimal(nil, nil), sDecimal(i64(5), nil), sDecimal(i64(5), i64(2)), {K: KDT, S: "datetime", T: &tpl}, sFilter(eCmp("==", eCur(), eInt(1)))}
 	for _, m := range []string{"type", "size", "double", "number", "integer", "bigint", "boolean", "string", "abs", "floor", "ceiling", "keyvalue"} {
 		trail = append(trail, sMethod(m))
